@@ -63,6 +63,7 @@ def run(ctx):
     cov["option_pairs_total"] = len(OPTS) * (len(OPTS) - 1) // 2
     cov["relational_comparisons"] = ctx.cov.get("relational", 0)
     cov["propagate_model"] = propagate_model(ctx)
+    cov["ad_constraint_model"] = adconstraint_model(ctx)
     ctx.write_evidence("exploration", cov)
 
 
@@ -165,9 +166,92 @@ def propagate_model(ctx):
     return cov
 
 
+def adconstraint_model(ctx):
+    """ADConstraint.tla: ConstraintAD.add under propagated evidence values / weights"""
+    R = mc.check_cfgs([("ADConstraint", "ADConstraint.cfg", True), ("ADConstraint", "ADConstraint_any.cfg", False)],
+                      nproc=ctx.nproc, timeout=ctx.pick(900, 3000), parallel=2)
+    H = mc.exported(R["ADConstraint.cfg"]["out"])
+    if not H:
+        raise MachineryError("no behaviours exported by ADConstraint.cfg")
+    cases = [dict(h, id=i) for i, h in enumerate(H)]
+    rng = random.Random(ctx.seed + 61616)
+    nexp = len(cases)
+    for _ in range(ctx.pick(1500, 15000)):        # larger disjunctions (4-5 heads), random orders
+        K = rng.randint(4, 5)
+        while True:
+            w = [rng.randint(1, 4) for _ in range(K)]
+            if sum(w) <= 10:
+                break
+        if rng.random() < 0.6:
+            w[rng.randrange(K)] += 10 - sum(w)
+        pre = [int(rng.random() < 0.5) for _ in range(K)]
+        evv0 = [""] * K
+        ph = [h for h in range(K) if pre[h]]
+        if ph and rng.random() < 0.3:
+            evv0[rng.choice(ph)] = "T"
+            for h in ph:
+                if not evv0[h] and rng.random() < 0.5:
+                    evv0[h] = "F"
+        else:
+            for h in ph:
+                if rng.random() < 0.4:
+                    evv0[h] = "F"
+        if all(evv0[h] == "F" for h in range(K)) and sum(w) == 10:
+            continue                                # unsatisfiable evidence values
+        order = [h + 1 for h in range(K) if not pre[h]]
+        rng.shuffle(order)
+        cases.append({"id": len(cases), "w": w, "pre": pre, "evv0": evv0, "sr": int(rng.random() < 0.7), "order": order})
+    chunk = 1000
+    res = pl.run_jobs([("adconstraint_replay", {"cases": [{k: c[k] for k in ("id", "w", "pre", "evv0", "sr", "order")} for c in cases[i:i + chunk]]})
+                       for i in range(0, len(cases), chunk)], nproc=ctx.nproc, timeout=600, chunksize=1)
+    judge, drift = [], 0
+    for r in res:
+        if r.get("error"):
+            raise MachineryError("adconstraint_replay failed: %s" % r)
+        for o in r["results"]:
+            ctx.evaluations += 1
+            c = cases[o["id"]]
+            what = "annotated disjunction with head weights %s/10: heads %s added before propagation with values %s, then heads %s%s" % (
+                c["w"], [h + 1 for h in range(len(c["w"])) if c["pre"][h]], c["evv0"], c["order"], " (propagate_weights)" if c["sr"] else "")
+            if o.get("error"):
+                ctx.violation({"clause": "crash", "level": "adconstraint-direct", "error": o["error"].split(":")[0]}, "%s: %s" % (what, o["error"]),
+                              {"adc": {k: c[k] for k in ("w", "pre", "evv0", "sr", "order")}})
+                continue
+            if "evv" in c and "ret" in c:
+                if c["evv"] == o["evv"] and c["ret"] == o["ret"]:
+                    continue
+                drift += 1
+            judge.append({"id": o["id"], "w": c["w"], "evv0": c["evv0"], "evv": o["evv"], "ret": o["ret"], "_what": what})
+    J = tlc.judge_batch("JudgeADConstraint", [{k: v for k, v in c.items() if k != "_what"} for c in judge], nproc=ctx.nproc, tag="c06ad")
+    for c in judge:
+        if not J[c["id"]]["ok"]:
+            cc = cases[c["id"]]
+            ctx.violation({"clause": "propagated-value-not-entailed", "level": "adconstraint-direct"},
+                          "%s: evidence table %s, add() returned FALSE for %s - not entailed by the annotated disjunction and the given values" % (
+                              c["_what"], c["evv"], [h + 1 for h, v in enumerate(c["ret"]) if v == "F"]),
+                          {"adc": {k: cc[k] for k in ("w", "pre", "evv0", "sr", "order")}})
+    if drift:
+        print("DRIFT property=C06 %d of %d runs of the real ConstraintAD.add differ from ADConstraint.tla (each judged by Layer A)" % (drift, nexp))
+    return {"model_states": R["ADConstraint.cfg"]["states"], "expected_counterexample_found": "ADConstraint_any.cfg (completion rule with 'any' instead of 'all')",
+            "model_behaviours_replayed": nexp, "random_instances_judged": len(cases) - nexp, "model_drift": drift}
+
+
 def replay(ctx, path):
     with open(path) as f:
         d = json.load(f)
+    if "adc" in d["case"]:
+        c = dict(d["case"]["adc"], id=0)
+        o = pl.run_local("adconstraint_replay", cases=[c])["results"][0]
+        print(json.dumps(c), "\n->", o)
+        ctx.evaluations = 1
+        if o.get("error"):
+            ctx.violation({"clause": "crash", "level": "adconstraint-direct", "error": o["error"].split(":")[0]}, o["error"], d["case"])
+        else:
+            j = tlc.judge_batch("JudgeADConstraint", [{"id": 0, "w": c["w"], "evv0": c["evv0"], "evv": o["evv"], "ret": o["ret"]}], nproc=1)[0]
+            if not j["ok"]:
+                ctx.violation({"clause": "propagated-value-not-entailed", "level": "adconstraint-direct"}, "not entailed", d["case"])
+        ctx.write_evidence("exploration", {"evaluations": 1, "distinct_nontrivial": 0, "samples": [d["case"]]})
+        return
     if "prop" in d["case"]:
         c = dict(d["case"]["prop"], id=0)
         o = pl.run_local("propagate_replay", cases=[c])["results"][0]
